@@ -2,7 +2,7 @@
 dynamic invocation of each hook kind, for every k, then PAIRS of faults (bounded); contract: extract returns a Stack, every
 injected exception that was actually raised is retrievable (by identity) from the error tree of the result, frames outward
 of the failure equal the fault-free extraction, and the result formats and summarises.
-Bounds: 9 scenarios; hooks {unwrap_stackitem, FrameIterator.__next__, elaborate_frame, contexts_active_in_frame,
+Bounds: 10 scenarios; hooks {unwrap_stackitem, FrameIterator.__next__, elaborate_frame, contexts_active_in_frame,
 elaborate_context, unwrap_context}; all single faults; pairs (k1<k2) of the same or different hook kinds, capped."""
 import sys, os, types, contextlib, threading, itertools
 sys.path.insert(0, os.path.dirname(__file__))
@@ -10,7 +10,7 @@ from _leg import Leg, THOROUGH
 import stackscope
 from stackscope import _extract as E, _customization as Cu
 
-leg = Leg("c05_faults", "9 scenarios x 6 hook kinds x every dynamic invocation index (single faults, exhaustive) + bounded pairs; "
+leg = Leg("c05_faults", "10 scenarios x 6 hook kinds x every dynamic invocation index (single faults, exhaustive) + bounded pairs; "
                         "non-trivial = fault actually raised; distinct by (scenario, hook, k)")
 
 
@@ -141,6 +141,43 @@ def scenario_plain_iterator_chain():
 def scenario_plain_iterator_hand():
     KIND[0] = "hand"
     return CustomPlainIter(), (lambda: None)
+
+
+class Hostile:
+    """a perfectly legal stack item whose comparison / truth / container protocol all raise: the traversal has no business calling
+    any of them (items are handled by identity and type)"""
+    def _no(s, *a): raise TypeError("this object does not support that")
+    __eq__ = __ne__ = __bool__ = __len__ = __iter__ = __getitem__ = __contains__ = __lt__ = __gt__ = _no
+    __hash__ = None
+    def __repr__(s): return "<Hostile>"
+
+
+HOSTILE = Hostile()
+
+
+def _mkframe_h():
+    return sys._getframe(0)
+
+
+HOSTILE_FRAME = _mkframe_h()
+
+
+class CustomHostile:
+    pass
+
+
+@stackscope.unwrap_stackitem.register(CustomHostile)
+def _unwrap_hostile(x):
+    return (CUSTOM_FRAME, HOSTILE_FRAME, CUSTOM_GEN)
+
+
+@stackscope.elaborate_frame.register(_mkframe_h)
+def _elab_hostile(frame, next_inner):
+    return HOSTILE                 # redirect: the rest of the stack is replaced by this (unwrappable-no-further) object
+
+
+def scenario_hostile_item():
+    return CustomHostile(), (lambda: None)
 
 
 def scenario_nonstack():
@@ -311,7 +348,7 @@ PAIR_CAP = 4000 if THOROUGH else 700
 SEEN_F11 = []
 SEEN_F19 = []
 for scen in (scenario_coro, scenario_thread, scenario_slice, scenario_custom, scenario_nonstack, scenario_unwrapped_gcm, scenario_exiting_gcm,
-             scenario_plain_iterator_chain, scenario_plain_iterator_hand):
+             scenario_plain_iterator_chain, scenario_plain_iterator_hand, scenario_hostile_item):
     item, cleanup = scen()
     try:
         _, inj0 = check(scen.__name__, item, None, None, {})
